@@ -325,12 +325,15 @@ func scalarReplace(pkg *packages.Package, knownTypes map[string]bool, content fu
 			v    *types.Var
 			lit  *ast.CompositeLit
 			st   *types.Struct
+			spec *ast.ValueSpec // set when the declaration is one spec of a var ( ... ) block
 		}
 		var cands []cand
 		ast.Inspect(f, func(n ast.Node) bool {
 			var name *ast.Ident
 			var val ast.Expr
 			var stmt ast.Stmt
+			var inBlock *ast.ValueSpec
+			var zeroOf *types.Named
 			switch x := n.(type) {
 			case *ast.AssignStmt:
 				if x.Tok == token.DEFINE && len(x.Lhs) == 1 && len(x.Rhs) == 1 {
@@ -341,6 +344,40 @@ func scalarReplace(pkg *packages.Package, knownTypes map[string]bool, content fu
 				if gd, ok := x.Decl.(*ast.GenDecl); ok && gd.Tok == token.VAR && len(gd.Specs) == 1 {
 					if vs, ok := gd.Specs[0].(*ast.ValueSpec); ok && len(vs.Names) == 1 && len(vs.Values) == 1 && vs.Type == nil {
 						name, val, stmt = vs.Names[0], vs.Values[0], x
+					} else if ok && len(vs.Names) == 1 && len(vs.Values) == 0 && vs.Type != nil {
+						// var v T: the zero value
+						if nt, _ := info.TypeOf(vs.Type).(*types.Named); nt != nil && nt.Obj().Pkg() == pkg.Types && !knownTypes[nt.Obj().Name()] {
+							if _, isSt := nt.Underlying().(*types.Struct); isSt {
+								name, stmt, zeroOf = vs.Names[0], x, nt
+							}
+						}
+					}
+				} else if ok && gd.Tok == token.VAR && gd.Lparen.IsValid() {
+					// one spec of a var ( ... ) block: replaced by specs, in place
+					for _, sp := range gd.Specs {
+						vs, ok := sp.(*ast.ValueSpec)
+						if ok && len(vs.Names) == 1 && len(vs.Values) == 0 && vs.Type != nil && name == nil {
+							// v T: the zero value
+							if nt, _ := info.TypeOf(vs.Type).(*types.Named); nt != nil && nt.Obj().Pkg() == pkg.Types && !knownTypes[nt.Obj().Name()] && !tried[fmt.Sprintf("sra:%s:%d", fname, off(vs.Pos()))] {
+								if _, isSt := nt.Underlying().(*types.Struct); isSt {
+									name, stmt, inBlock, zeroOf = vs.Names[0], x, vs, nt
+								}
+							}
+							continue
+						}
+						if !ok || len(vs.Names) != 1 || len(vs.Values) != 1 || vs.Type != nil || name != nil {
+							continue
+						}
+						v0 := vs.Values[0]
+						if u, isU := v0.(*ast.UnaryExpr); isU && u.Op == token.AND {
+							v0 = u.X
+						}
+						if cl, isCL := v0.(*ast.CompositeLit); isCL {
+							if nt, _ := info.TypeOf(cl).(*types.Named); nt != nil && nt.Obj().Pkg() == pkg.Types && !knownTypes[nt.Obj().Name()] && !tried[fmt.Sprintf("sra:%s:%d", fname, off(vs.Pos()))] {
+								name, val, stmt = vs.Names[0], vs.Values[0], x
+								inBlock = vs
+							}
+						}
 					}
 				}
 			}
@@ -350,6 +387,12 @@ func scalarReplace(pkg *packages.Package, knownTypes map[string]bool, content fu
 			switch par[stmt].(type) {
 			case *ast.BlockStmt, *ast.CaseClause, *ast.CommClause:
 			default:
+				return true
+			}
+			if zeroOf != nil {
+				if v, _ := info.Defs[name].(*types.Var); v != nil {
+					cands = append(cands, cand{stmt, v, nil, zeroOf.Underlying().(*types.Struct), inBlock})
+				}
 				return true
 			}
 			for {
@@ -376,11 +419,14 @@ func scalarReplace(pkg *packages.Package, knownTypes map[string]bool, content fu
 			if st == nil || v == nil {
 				return true
 			}
-			cands = append(cands, cand{stmt, v, lit, st})
+			cands = append(cands, cand{stmt, v, lit, st, inBlock})
 			return true
 		})
 		for _, c := range cands {
 			key := fmt.Sprintf("sra:%s:%d", fname, off(c.stmt.Pos()))
+			if c.spec != nil {
+				key = fmt.Sprintf("sra:%s:%d", fname, off(c.spec.Pos()))
+			}
 			if tried[key] {
 				continue
 			}
@@ -428,7 +474,11 @@ func scalarReplace(pkg *packages.Package, knownTypes map[string]bool, content fu
 			var decl strings.Builder
 			inited := map[string]bool{}
 			okLit := true
-			for i, el := range c.lit.Elts {
+			var elts []ast.Expr
+			if c.lit != nil {
+				elts = c.lit.Elts
+			}
+			for i, el := range elts {
 				fieldName := ""
 				var val ast.Expr
 				if kv, isKV := el.(*ast.KeyValueExpr); isKV {
@@ -451,7 +501,9 @@ func scalarReplace(pkg *packages.Package, knownTypes map[string]bool, content fu
 					decl.WriteString("_ = " + text(val) + "\n")
 					continue
 				}
-				if types.Identical(info.TypeOf(val), ft) {
+				if c.spec != nil {
+					decl.WriteString(local(fieldName) + " " + types.TypeString(ft, q) + " = " + text(val) + "\n")
+				} else if types.Identical(info.TypeOf(val), ft) {
 					decl.WriteString(local(fieldName) + " := " + text(val) + "\n")
 				} else {
 					decl.WriteString("var " + local(fieldName) + " " + types.TypeString(ft, q) + " = " + text(val) + "\n")
@@ -468,12 +520,19 @@ func scalarReplace(pkg *packages.Package, knownTypes map[string]bool, content fu
 			}
 			sort.Strings(rest)
 			for _, fn := range rest {
-				decl.WriteString("var " + local(fn) + " " + types.TypeString(fieldType[fn], q) + "\n")
+				if c.spec != nil {
+					decl.WriteString(local(fn) + " " + types.TypeString(fieldType[fn], q) + "\n")
+				} else {
+					decl.WriteString("var " + local(fn) + " " + types.TypeString(fieldType[fn], q) + "\n")
+				}
 			}
 			if *bad {
 				continue
 			}
 			eds := []srcEdit{{off(c.stmt.Pos()), off(c.stmt.End()), decl.String()}}
+			if c.spec != nil {
+				eds = []srcEdit{{off(c.spec.Pos()), off(c.spec.End()), decl.String()}}
+			}
 			for _, se := range uses {
 				if emb, isProm := promoted[se]; isProm {
 					eds = append(eds, srcEdit{off(se.X.Pos()), off(se.X.End()), local(emb)})
@@ -482,7 +541,11 @@ func scalarReplace(pkg *packages.Package, knownTypes map[string]bool, content fu
 				eds = append(eds, srcEdit{off(se.Pos()), off(se.End()), local(se.Sel.Name)})
 			}
 			out := applyEdits(append([]byte{}, src...), eds)
-			return fname, out, fmt.Sprintf("replaced the local %s of the unknown struct type %s (%s:%d) by one variable per field", c.v.Name(), types.TypeString(info.TypeOf(c.lit), q), shortName(fname), pkg.Fset.Position(c.stmt.Pos()).Line)
+			tname := c.v.Type().String()
+			if c.lit != nil {
+				tname = types.TypeString(info.TypeOf(c.lit), q)
+			}
+			return fname, out, fmt.Sprintf("replaced the local %s of the unknown struct type %s (%s:%d) by one variable per field", c.v.Name(), tname, shortName(fname), pkg.Fset.Position(c.stmt.Pos()).Line)
 		}
 	}
 	return "", nil, ""
@@ -958,6 +1021,113 @@ func unNewtype(pkg *packages.Package, knownTypes map[string]bool, content func(s
 			out[fname] = applyEdits(append([]byte{}, content(fname)...), eds)
 		}
 		return n, out, fmt.Sprintf("replaced the unknown method-less type %s by its underlying type %s", n, under)
+	}
+	return "", nil, ""
+}
+
+// dropPointerAlias: a local p that is declared as &v (v a local variable) and only ever used through field
+// selections p.f is v under another name: every p.f becomes v.f and the declaration goes (the shape the inliner gives
+// the pointer receiver of an inlined method: `var p *T = &pending`).
+func dropPointerAlias(pkg *packages.Package, content func(string) []byte, tried map[string]bool) (string, []byte, string) {
+	info := pkg.TypesInfo
+	for _, f := range pkg.Syntax {
+		fname := pkg.Fset.File(f.Pos()).Name()
+		if strings.HasSuffix(fname, "_test.go") {
+			continue
+		}
+		par := parents(f)
+		off := func(p token.Pos) int { return pkg.Fset.Position(p).Offset }
+		type cand struct {
+			p        *types.Var
+			target   *ast.Ident
+			from, to token.Pos
+		}
+		var cands []cand
+		ast.Inspect(f, func(n ast.Node) bool {
+			add := func(name *ast.Ident, val ast.Expr, from, to token.Pos) {
+				u, ok := val.(*ast.UnaryExpr)
+				if !ok || u.Op != token.AND {
+					return
+				}
+				tid, ok := u.X.(*ast.Ident)
+				if !ok {
+					return
+				}
+				tv, _ := info.Uses[tid].(*types.Var)
+				pv, _ := info.Defs[name].(*types.Var)
+				if tv == nil || pv == nil || tv.IsField() || tv.Parent() == pkg.Types.Scope() {
+					return
+				}
+				cands = append(cands, cand{pv, tid, from, to})
+			}
+			switch x := n.(type) {
+			case *ast.AssignStmt:
+				if x.Tok == token.DEFINE && len(x.Lhs) == 1 && len(x.Rhs) == 1 {
+					if id, ok := x.Lhs[0].(*ast.Ident); ok {
+						if _, isBlock := par[x].(*ast.BlockStmt); isBlock {
+							add(id, x.Rhs[0], x.Pos(), x.End())
+						}
+					}
+				}
+			case *ast.DeclStmt:
+				gd, ok := x.Decl.(*ast.GenDecl)
+				if !ok || gd.Tok != token.VAR {
+					return true
+				}
+				for _, sp := range gd.Specs {
+					vs := sp.(*ast.ValueSpec)
+					if len(vs.Names) == 1 && len(vs.Values) == 1 {
+						from, to := vs.Pos(), vs.End()
+						if len(gd.Specs) == 1 {
+							from, to = x.Pos(), x.End()
+						}
+						add(vs.Names[0], vs.Values[0], from, to)
+					}
+				}
+			}
+			return true
+		})
+		for _, c := range cands {
+			key := fmt.Sprintf("alias:%s:%d", fname, off(c.from))
+			if tried[key] {
+				continue
+			}
+			tried[key] = true
+			var sels []*ast.SelectorExpr
+			ok := true
+			for id, o := range info.Uses {
+				if o != types.Object(c.p) {
+					continue
+				}
+				se, isSel := par[id].(*ast.SelectorExpr)
+				if !isSel || se.X != ast.Expr(id) {
+					ok = false
+					break
+				}
+				if sel := info.Selections[se]; sel == nil || sel.Kind() != types.FieldVal {
+					ok = false
+					break
+				}
+				// the target's name must mean the same variable there
+				if sc := pkg.Types.Scope().Innermost(id.Pos()); sc == nil {
+					ok = false
+					break
+				} else if _, got := sc.LookupParent(c.target.Name, id.Pos()); got != info.Uses[c.target] {
+					ok = false
+					break
+				}
+				sels = append(sels, se)
+			}
+			if !ok || len(sels) == 0 {
+				continue
+			}
+			eds := []srcEdit{{off(c.from), off(c.to), ""}}
+			for _, se := range sels {
+				eds = append(eds, srcEdit{off(se.X.Pos()), off(se.X.End()), c.target.Name})
+			}
+			out := applyEdits(append([]byte{}, content(fname)...), eds)
+			return fname, out, fmt.Sprintf("the pointer alias %s of the local %s (%s:%d) is written as %s", c.p.Name(), c.target.Name, shortName(fname), pkg.Fset.Position(c.from).Line, c.target.Name)
+		}
 	}
 	return "", nil, ""
 }
